@@ -2331,6 +2331,11 @@ class VM:
                 self._invoke_setter(setter, obj, value)
             else:
                 obj.set(key_str, value)
+        elif isinstance(obj, (bool, int, float, str)):
+            # All code is strict: a property cannot be created on a primitive value
+            raise JSTypeError(
+                f"Cannot create property '{key_str}' on {js_typeof(obj)} '{to_string(obj)}'"
+            )
 
     @staticmethod
     def _canonical_numeric_index(key: str):
